@@ -358,6 +358,44 @@ theorem duration_legacy_panics_iff (s n : Int) :
   rw [newLegacy_panic_iff]
   simp
 
+/-- **timestamp_display_total.** Every accepted timestamp can be rendered with `Display` (what the debug page does
+with the timestamp of every stored, validly signed `NetAddress`). -/
+theorem timestamp_display_total (d : Dur) : (utcDisplay d).isPanic = false := rfl
+
+/-- **F10 is load-bearing.** Before the repair, `Display` of an *accepted* timestamp outside the years ±9999 panicked:
+witness `{seconds: 253402300800, nanos: 0}` (= 10000-01-01T00:00:00Z); and it panicked on exactly the out-of-range
+values. -/
+theorem timestamp_display_legacy_panics :
+    ∃ d, timestampRead ⟨some 253402300800, some 0⟩ = .ok d ∧ (utcDisplayLegacy d).isPanic = true := by
+  refine ⟨⟨253402300800, 0⟩, by decide, by decide⟩
+
+theorem timestamp_display_legacy_panics_iff (d : Dur) :
+    (utcDisplayLegacy d).isPanic = true ↔
+      ¬ (-377705116800000000000 ≤ d.secs * 1000000000 + d.nanos ∧ d.secs * 1000000000 + d.nanos ≤ 253402300799999999999) := by
+  unfold utcDisplayLegacy inOffsetDateTimeRange
+  by_cases h : -377705116800000000000 ≤ d.secs * 1000000000 + d.nanos ∧
+      d.secs * 1000000000 + d.nanos ≤ 253402300799999999999
+  · simp [h.1, h.2, Res.isPanic]
+  · have : (decide (-377705116800000000000 ≤ d.secs * 1000000000 + d.nanos) &&
+        decide (d.secs * 1000000000 + d.nanos ≤ 253402300799999999999)) = false := by
+      simp only [Bool.and_eq_false_iff, decide_eq_false_iff_not]
+      omega
+    simp [this, Res.isPanic, h]
+
+/-- **Latent defect on the current tree (Debug rendering).** `{:?}` of an accepted timestamp panics exactly when
+`seconds = i64::MIN` and the normalised nanos are negative; witness `{seconds: i64::MIN, nanos: -1}`. No production
+code path Debug-formats a received `NetAddress`, so this is recorded, not counted as reachable. -/
+theorem timestamp_debug_can_panic :
+    ∃ d, timestampRead ⟨some (-9223372036854775808), some (-1)⟩ = .ok d ∧ (utcDebug d).isPanic = true := by
+  refine ⟨⟨-9223372036854775808, -1⟩, by decide, by decide⟩
+
+theorem timestamp_debug_ok_iff (d : Dur) :
+    (utcDebug d).isPanic = false ↔ ¬ (d.secs = -9223372036854775808 ∧ d.nanos < 0) := by
+  unfold utcDebug I64_MIN
+  by_cases h : d.secs = -9223372036854775808 ∧ d.nanos < 0
+  · rw [if_pos h]; simp [Res.isPanic, h]
+  · rw [if_neg h]; simp [Res.isPanic, h]
+
 /-- **bitvec_read_total**, with the exact acceptance condition; the vector is built from the bytes received, `size`
 is only compared (nothing is allocated from `size`: `bitvecAlloc` does not mention it). -/
 theorem bitvec_read_total (r : PBitVec) : (bitvecRead r).isPanic = false := bitvecRead_not_panic r
